@@ -471,14 +471,21 @@ pub struct Handle {
 // Reconfigurations are serialised: the facade's maximum level and the logger snapshot are two
 // separate writes, and of two concurrent calls one could otherwise leave its level behind with
 // the other one's configuration.
+#[cfg(not(all(log4rs_verif, feature = "parking_lot")))]
 static RECONFIGURE: std::sync::Mutex<()> = std::sync::Mutex::new(());
+#[cfg(all(log4rs_verif, feature = "parking_lot"))]
+static RECONFIGURE: once_cell::sync::Lazy<crate::verif::Mutex<()>> =
+    once_cell::sync::Lazy::new(|| crate::verif::Mutex::new(()));
 
 impl Handle {
     /// Sets the logging configuration.
     pub fn set_config(&self, config: Config) {
         let shared = Arc::new(SharedLogger::new(config));
         let previous = {
+            #[cfg(not(all(log4rs_verif, feature = "parking_lot")))]
             let _guard = RECONFIGURE.lock().unwrap_or_else(|e| e.into_inner());
+            #[cfg(all(log4rs_verif, feature = "parking_lot"))]
+            let _guard = RECONFIGURE.lock();
             log::set_max_level(shared.root.max_log_level());
             self.shared.swap(shared)
         };
